@@ -380,7 +380,7 @@ func (env *Env) evalIdent(name string) SV {
 		}
 	}
 	// inside invariants / call-site requirements, a reassigned parameter denotes its current value
-	if env.frame != nil && !env.inOld {
+	if env.frame != nil && !env.inOld && !vc.eng.cellBacked(env.frame.fn, name) {
 		if bv, ok := vc.boundValue(env.frame, env.loop, name); ok {
 			if rv, have := env.frame.regs[bv]; have {
 				return SV{vc.term(env.st, rv, "spec"), bv.Type()}
@@ -393,6 +393,30 @@ func (env *Env) evalIdent(name string) SV {
 	if env.frame != nil {
 		if v, ok := vc.localByName(env, name); ok {
 			return v
+		}
+		// a function literal inlined into its enclosing function: the enclosing function's parameters and
+		// variables are in (lexical) scope even when the literal does not capture them
+		if parent := env.frame.fn.Parent(); parent != nil && env.st != nil {
+			for i := len(env.st.frames) - 1; i >= 0; i-- {
+				pf := env.st.frames[i]
+				if pf.fn != parent {
+					continue
+				}
+				for _, p := range parent.Params {
+					if p.Name() == name {
+						if rv, ok := pf.regs[p]; ok {
+							return SV{vc.term(env.st, rv, name), p.Type()}
+						}
+					}
+				}
+				e2 := *env
+				e2.frame = pf
+				e2.loop = nil
+				if v, ok := vc.localByName(&e2, name); ok {
+					return v
+				}
+				break
+			}
 		}
 	}
 	if name == "this" && env.this != nil {
@@ -938,6 +962,56 @@ func (env *Env) evalCall(x *ECall) SV {
 			t = vc.eng.st.Zero(vc.eng.st.ArrayOf(sortInt, vc.eng.st.SortOf(et)))
 		}
 		return SV{V: t, T: &ghostMapT{types.Typ[types.Int], et}}
+	case "kvkey":
+		// kvkey("prefix", s): the database key fmt.Sprintf("prefix%s", s)
+		pf, ok := x.Args[0].(*EStr)
+		if !ok {
+			specFail("kvkey(<prefix literal>, string)")
+		}
+		return SV{vc.keyFormat(env.st, pf.V, arg(1).V), types.Typ[types.String]}
+	case "kvlive":
+		return SV{vc.kvLive(env.st, arg(0).V), types.Typ[types.Bool]}
+	case "kvhas":
+		return SV{Select(vc.kvHas(env.st), arg(0).V, sortBool), types.Typ[types.Bool]}
+	case "kvexp":
+		return SV{Select(vc.kvExp(env.st), arg(0).V, sortInt), ti}
+	case "kvget":
+		// kvget("T", key): the value of Go type T stored under key
+		tn, ok := x.Args[0].(*EStr)
+		if !ok {
+			specFail("kvget(<type literal>, key)")
+		}
+		gt, gs := env.resolveType(tn.V)
+		if gt == nil {
+			specFail("kvget: unknown type %s", tn.V)
+		}
+		_, h := vc.kvVal(env.st, gs)
+		return SV{Select(h, arg(1).V, gs), gt}
+	case "kvmhas", "kvmval", "kvmlen":
+		// kvmhas("K", "V", key, k) / kvmval("K", "V", key, k) / kvmlen("K", "V", key): the map[K]V stored under key
+		kn, ok1 := x.Args[0].(*EStr)
+		vn, ok2 := x.Args[1].(*EStr)
+		if !ok1 || !ok2 {
+			specFail("%s(<key type literal>, <value type literal>, key, ...)", x.Fun)
+		}
+		kt, _ := env.resolveType(kn.V)
+		vt, _ := env.resolveType(vn.V)
+		if kt == nil || vt == nil {
+			specFail("%s: unknown map type map[%s]%s", x.Fun, kn.V, vn.V)
+		}
+		km := vc.kvMap(env.st, types.NewMap(kt, vt))
+		T := vc.eng.st
+		switch x.Fun {
+		case "kvmhas":
+			return SV{Select(Select(km.h, arg(2).V, T.ArrayOf(km.k, sortBool)), arg(3).V, sortBool), types.Typ[types.Bool]}
+		case "kvmval":
+			return SV{Select(Select(km.v, arg(2).V, T.ArrayOf(km.k, km.e)), arg(3).V, km.e), vt}
+		}
+		return SV{Select(km.n, arg(2).V, sortInt), ti}
+	case "kvsum":
+		return SV{vc.kvSum(env.st), ti}
+	case "txncount":
+		return SV{IntLit(int64(env.st.txnCount)), ti}
 	case "chancap":
 		return SV{Select(vc.heap(env.st, "CHCAP", vc.eng.st.ArrayOf(sortInt, sortInt)), arg(0).V, sortInt), ti}
 	case "off":
